@@ -226,10 +226,10 @@ def read_template(unit):
                             elif d2 == "prologue":
                                 cur = it.prologue
                             elif d2 == "ghost":
-                                m = re.match(r"//@\s*ghost\s+(before|after)\s+<<(.*?)>>\s*$", s2)
+                                m = re.match(r"//@\s*ghost\s+(before|after)\s+(re)?<<(.*?)>>\s*$", s2)
                                 if not m:
                                     raise Undecided(f"{rel}:{i+1}: bad ghost directive")
-                                g = {"pos": m.group(1), "anchor": m.group(2), "lines": [], "line": i + 1}
+                                g = {"pos": m.group(1), "anchor": m.group(3), "lines": [], "line": i + 1, "re": bool(m.group(2))}
                                 it.ghosts.append(g)
                                 cur = g["lines"]
                             elif d2 == "closure":
@@ -486,11 +486,17 @@ def assemble(unit, canary=False, mutant=None, check_fp=True):
             gt = " ".join(strip_comment(t).strip() for _, t in g["lines"]).strip()
             if not re.match(r"^(proof\s*\{|assert\b|broadcast use\b|let ghost\b)", gt):
                 raise Undecided(f"{it.tpl}:{g['line']}: ghost insertion must be a proof block / assert / broadcast use / let ghost")
-            anc = g["anchor"].replace("\\n", "\n").encode()
-            cnt = body.count(anc)
-            if cnt != 1:
-                raise Undecided(f"lost-anchor: {it.path}: ghost anchor `{g['anchor']}` occurs {cnt} times")
-            st = b0 + body.index(anc) + (len(anc) if g["pos"] == "after" else 0)
+            if g.get("re"):
+                ms = list(re.finditer(g["anchor"].encode(), body, re.S))
+                if len(ms) != 1:
+                    raise Undecided(f"lost-anchor: {it.path}: ghost anchor pattern `{g['anchor']}` matches {len(ms)} times")
+                st = b0 + (ms[0].end() if g["pos"] == "after" else ms[0].start())
+            else:
+                anc = g["anchor"].replace("\\n", "\n").encode()
+                cnt = body.count(anc)
+                if cnt != 1:
+                    raise Undecided(f"lost-anchor: {it.path}: ghost anchor `{g['anchor']}` occurs {cnt} times")
+                st = b0 + body.index(anc) + (len(anc) if g["pos"] == "after" else 0)
             reps.append((st, st, " " + gt + " ", dict(org_base, kind="ghost", line=g["line"], tags=[t for _, l in g["lines"] for t in parse_tags(l)])))
         all_edits = list(it.edits)
         for e in all_edits:
@@ -498,7 +504,7 @@ def assemble(unit, canary=False, mutant=None, check_fp=True):
                 ms = list(re.finditer(e["from"].encode(), body, re.S))
                 if len(ms) != 1:
                     raise Undecided(f"lost-anchor: {it.path}: edit pattern `{e['from']}` matches {len(ms)} times")
-                reps.append((b0 + ms[0].start(), b0 + ms[0].end(), e["to"], dict(org_base, kind="edit", line=e["line"], tags=[])))
+                reps.append((b0 + ms[0].start(), b0 + ms[0].end(), ms[0].expand(e["to"].encode()).decode(), dict(org_base, kind="edit", line=e["line"], tags=[])))
                 A.edits.append({"item": it.id, "from": "regex " + e["from"], "to": e["to"], "why": e["why"], "occurrences": 1})
                 continue
             frm = e["from"].encode()
